@@ -136,10 +136,11 @@ pub fn free(seed: u64, runs: usize, dir: &str, maxlen: usize) {
                 }
                 let idlen = if j % 11 == 7 { 300 } else { rng.range(1, 12) as usize };
                 let id: Vec<u8> = (0..idlen).map(|_| *rng.pick(b"abcXYZ0189_.|:-")).collect();
-                let desc = match j % 3 {
+                let desc = match j % 4 {
                     0 => None,
                     1 => Some(b"len=12 sample".to_vec()),
-                    _ => Some(b"\tx".to_vec()),
+                    2 => Some(b"\tx".to_vec()),
+                    _ => Some(b"\x0cafter a form feed".to_vec()),
                 };
                 Rec { id, desc, seq: s }
             })
@@ -215,7 +216,7 @@ pub fn free(seed: u64, runs: usize, dir: &str, maxlen: usize) {
         let recs2: Vec<Rec> = recs
             .iter()
             .map(|r| match &r.desc {
-                Some(d) if d.first() == Some(&b'\t') => {
+                Some(d) if d.first() == Some(&b'\t') || d.first() == Some(&0x0c) => {
                     let mut id = r.id.clone();
                     // serialised as id + ' ' + desc by lines_of_records; keep the id itself free of whitespace
                     id.retain(|b| *b != b' ' && *b != b'\t');
